@@ -139,6 +139,13 @@ func c13ProbePoint(c *fw.Ctx, e *Env, g *Gen) {
 				add("PoDecide", x, &enttypes.MsgProcessUndPurchaseOrder{PurchaseOrderId: obs.RaisedQ[r.Intn(len(obs.RaisedQ))], Decision: enttypes.StatusRejected, Signer: xs}, isSigner)
 			}
 			add("Whitelist", x, &enttypes.MsgWhitelistAddress{Address: accts[r.Intn(len(accts))].Addr.String(), Signer: xs, Action: enttypes.WhitelistActionAdd}, isSigner)
+			// removal of a whitelist entry - the named account's own one first (a whitelisted account
+			// that is not an enterprise signer has no say over the whitelist, not even about itself)
+			rmTarget := x.Addr.String()
+			if len(obs.Whitelist) > 0 && r.Chance(40) {
+				rmTarget = obs.Whitelist[r.Intn(len(obs.Whitelist))]
+			}
+			add("WhitelistRemove", x, &enttypes.MsgWhitelistAddress{Address: rmTarget, Signer: xs, Action: enttypes.WhitelistActionRemove}, isSigner)
 			add("WrkReg", x, g.WrkRegisterMsg(x), func(o *lab.Obs, who lab.Acct) bool { return true })
 			add("BcnReg", x, g.BeaconRegisterMsg(x), func(o *lab.Obs, who lab.Acct) bool { return true })
 			if len(obs.Wrk) > 0 {
